@@ -217,3 +217,22 @@ def random_cases(rng, tier):
 
 def nontrivial(o):
     return o["in"]["g"]["type"] != "TimeStamp"
+
+
+MANIFEST = {
+    "text": ("GeomFeatures.tla states Bounds (min/max over the coordinates, time-only kinds spanning [0, MAX_FREQUENCY]), the features "
+             "derived from them, the nine named anchor points in doubled ticks, and what a shapely conversion must preserve; "
+             "MC_GeomFeatures.tla runs the implementation's four code paths (per-type conversion, bounds read from the converted "
+             "shape's shell, per-type feature functions, the position-name selector table) as a pipeline and TLC checks Impl => Req "
+             "plus the consistency laws (ordering, duration/bandwidth identities, every anchor on the bounds, the nine names pairwise "
+             "consistent, bounds recomputed from the raw tokens) for every geometry of a bounded universe of all nine kinds "
+             "(zero-extent boxes, cw/ccw open/closed rings, L-shapes, degenerate rings, holes, multi-geometries of 1..3 parts). "
+             "Every geometry is then built for real at three dyadic time units; compute_bounds, geometry_to_shapely (every coordinate "
+             "read back), compute_geometric_features and get_geometry_point at all eleven positions are recorded as exact integers / "
+             "limb numbers and judged by TLC. Bounded-exhaustive plus random geometries on a 1000 x 5000 lattice."),
+    "note": ("trusted: TLC, the binder checks/c05.py + vt/geom.py (encoders), exact float arithmetic on dyadic units; geometries are "
+             "valid, in normal form, with simple rings and holes inside the shell; rings are compared as closed curves; the shapely "
+             "kind of TimeStamp/TimeInterval/BoundingBox and a ValueError for unknown position names are not demanded by the "
+             "statement and not judged (the former is reported as MODEL-DRIFT if it changes); small-scope hypothesis beyond the lattice"),
+    "design_ref": "DESIGN.md section 4 C05",
+}
